@@ -309,6 +309,9 @@ def shard(ctx):
     out = Out()
     hyp_search(out, ctx["known"], case_strategy(), evaluate, PARAMS[ctx["tier"]], ctx["seed"])
     sim.cleanup_sandbox()
+    from .. import fuzz
+
+    fuzz.thorough_stage("C19", ctx, out)
     return out
 
 
